@@ -293,10 +293,12 @@ def generate(cls, rng):
                     r[-1] = 82800
     sc = dict(spec=spec, form=form, nyears=nyears,
               daylight_first=rng.random() < 0.5,
-              fold_width=rng.choice([None, None, 30, 75]),
+              fold_width=rng.choice([None, None, 30, 75, 9, 7, 5]),
               multi=rng.random() < 0.4, other=other, other_form=other_form,
               dormant=rng.choice([None, None, "after", "before"]),
               decor=rng.random() < 0.3,
+              fwd=rng.choice([0, 0, 0, 6, rng.randrange(7)]),
+              blank_ids=rng.random() < 0.3,
               source=rng.choice(["stringio", "stringio", "path", "crlf"]))
     if cls == "hist":
         pool = [gen_query(rng, nyears) for _ in range(rng.choice([3, 12, 14,
@@ -352,17 +354,26 @@ def generate(cls, rng):
 EPOCH = datetime.datetime(1970, 1, 1)
 
 
+def zone_ids(sc):
+    """TZIDs of the two zones: with a blank inside in some runs (a fold may
+    then fall right in front of a blank that belongs to the value)."""
+    if sc.get("blank_ids"):
+        return "Zone One", "Zone Two"
+    return "Zone/One", "Zone/Two"
+
+
 def build_text(sc):
     lines = ["BEGIN:VCALENDAR", "VERSION:2.0"]
-    zones = [("Zone/One", sc["spec"], sc["form"])]
+    id1, id2 = zone_ids(sc)
+    zones = [(id1, sc["spec"], sc["form"])]
     if sc.get("multi"):
         zones.insert(0 if sc["daylight_first"] else 1,
-                     ("Zone/Two", sc["other"], sc["other_form"]))
+                     (id2, sc["other"], sc["other_form"]))
     for tzid, spec, form in zones:
         lines += vtimezone(spec, tzid, form, sc["daylight_first"],
                            sc["nyears"], sc.get("fold_width"),
                            dormant=sc.get("dormant")
-                           if tzid == "Zone/One" else None,
+                           if tzid == id1 else None,
                            decor=bool(sc.get("decor")))
     if sc.get("decor"):
         # other calendar components around the zone definitions are none of
@@ -432,13 +443,18 @@ class ZoneUnderTest(object):
                 pass
             else:
                 self.ctx.violation("C17.unnamed_get_with_two_zones", dict())
-            if sorted(ical.keys()) != ["Zone/One", "Zone/Two"]:
+            if sorted(ical.keys()) != sorted(zone_ids(sc)):
                 self.ctx.violation("C17.keys_wrong",
                                    dict(keys=sorted(ical.keys())))
-            return ical.get("Zone/One")
+            z = ical.get(zone_ids(sc)[0])
+            if z is None:
+                self.ctx.violation("C17.zone_not_addressable",
+                                   dict(tzid=zone_ids(sc)[0],
+                                        keys=sorted(ical.keys())))
+            return z
         self.ctx.probe("single_zone_unnamed")
         z = ical.get()
-        if z is not ical.get("Zone/One"):
+        if z is not ical.get(zone_ids(sc)[0]):
             self.ctx.violation("C17.unnamed_get_differs", dict())
         return z
 
@@ -578,8 +594,13 @@ def cache_probe(zut, ctx, before, key):
 
 
 def execute(cls, scenario, ctx):
+    import calendar
     import warnings
     warnings.simplefilter("ignore")
+    # process-wide configuration the recurrence machinery behind the
+    # components might consult; the rules carry their own BYDAY and do not
+    # depend on it
+    calendar.setfirstweekday(scenario.get("fwd", 0) % 7)
     if cls == "bad":
         return execute_bad(scenario, ctx)
     K.set_budget(30000000)
